@@ -152,6 +152,87 @@ def one(chk: Check, site: driver.Site, root: str, label: str, view: str, sel: by
     return r, writes, failures, leaked, [w for w in rw.seen if "unclosed file" in w and (root in w or "name=" in w)]
 
 
+def real_resets(chk: Check, sc: Scratch, nresets: int) -> None:
+    """The same containment on the real server process with real kernel errors: clients fetch a
+    large document, read r bytes and reset the connection (SO_LINGER 0)."""
+    import re
+    import struct
+    import time
+    from vf import spdriver
+    root = sc.sub("sp-root")
+    t = Tree()
+    t.file("big.bin", trees.gen_content(__import__("random").Random(2), 8 * 1024 * 1024, "binary"))
+    t.file("small.txt", "small\n")
+    t.materialize(root)
+    rng = chk.subrng("resets")
+    for servertype in ("ThreadingTCPServer", "ForkingTCPServer"):
+        sp = spdriver.ServerProcess(root=root, servertype=servertype, tls=False, workdir=sc.sub("sp-" + servertype[:4]), name="c20")
+        sp.start()
+        try:
+            if not sp.wait_ready(30):
+                chk.note_inconclusive("C20 server process did not become ready")
+                return
+            views = ["gopher", "gopherp+", "http", "spartan"]
+            for i in range(nresets):
+                view = views[i % len(views)]
+                req, _ = reqs.render(view, b"/big.bin")
+                r = rng.choice([0, 1, 100, 4096, 65536, 300000])
+                try:
+                    s = socket.create_connection(("127.0.0.1", sp.port), timeout=20)
+                    s.sendall(req)
+                    got = 0
+                    while got < r:
+                        b = s.recv(min(65536, r - got))
+                        if not b:
+                            break
+                        got += len(b)
+                    s.setsockopt(socket.SOL_SOCKET, socket.SO_LINGER, struct.pack("ii", 1, 0))
+                    s.close()
+                except OSError:
+                    chk.count("reset_client_errors")
+                chk.count("real_connection_resets")
+            # the server must still answer, and must have logged each failure under its own class
+            deadline = time.monotonic() + 20
+            while time.monotonic() < deadline:
+                log = sp.stdout_text()
+                n = len(re.findall(r"127\.0\.0\.1 \[[A-Za-z]+/None\] EXCEPTION (BrokenPipeError|ConnectionResetError)", log))
+                if n >= nresets * 0.8:
+                    break
+                time.sleep(0.3)
+            try:
+                probe = sp.request(b"/small.txt\r\n")
+            except OSError as e:
+                probe = b"<%s>" % type(e).__name__.encode()
+            log = sp.stdout_text()
+            classes = re.findall(r"EXCEPTION ([A-Za-z_.]+)", log)
+            own = [c for c in classes if c in ("BrokenPipeError", "ConnectionResetError")]
+            other = sorted(set(c for c in classes if c not in ("BrokenPipeError", "ConnectionResetError")))
+            sample = {"servertype": servertype, "resets": nresets, "logged_under_own_class": len(own), "other_classes": other,
+                      "probe": probe[:40], "stderr_tail": sp.stderr_text()[-400:]}
+            if probe != b"small\n":
+                chk.witness("C20/server-down-after-client-resets:%s" % servertype, sample)
+            elif other:
+                chk.witness("C20/real-reset-logged-as-%s" % other[0], sample)
+            elif len(own) < nresets * 0.5:
+                chk.witness("C20/real-resets-not-logged-under-their-own-class", sample)
+            elif "Exception occurred during processing of request" in sp.stderr_text():
+                chk.witness("C20/real-reset-left-the-handler", sample)
+            else:
+                chk.count("real_resets_logged_under_own_class", len(own))
+                chk.case(("real-resets", servertype), sample)
+            if servertype == "ForkingTCPServer":
+                time.sleep(1.5)
+                kids = [m for m in spdriver.session_members(sp.sid) if m[0] != sp.pid]
+                if kids:
+                    time.sleep(3)
+                    kids = [m for m in spdriver.session_members(sp.sid) if m[0] != sp.pid]
+                if kids:
+                    chk.witness("C20/workers-left-after-client-resets", dict(sample, processes=kids[:5]))
+        finally:
+            sp.stop()
+            sp.cleanup()
+
+
 def main() -> int:
     chk = Check("C20", "fault_enumeration")
     quick = chk.tier == "quick"
@@ -216,13 +297,16 @@ def main() -> int:
                         chk.case((label, view, ek, k), sample if chk.evaluations % 499 == 0 else None)
         finally:
             site.close()
+        real_resets(chk, sc, 16 if quick else 200)
     return chk.finish(
         rule="case = (response kind, protocol view, error class, write index k): the server-side socket's sendall "
              "succeeds k times and then raises EPIPE / ECONNRESET / a single-argument timeout on that and every later "
              "call; k ranges over all Python-level writes of the fault-free response (all k for responses of up to "
              "60 (quick) / 200 writes, else a prefix plus a stride). Verdict: nothing escapes the connection handler, a log "
              "record with the client address and the error's own class exists, no record of another class (beyond "
-             "those the fault-free request logs), /proc/self/fd back to its state, no file finalised unclosed",
+             "those the fault-free request logs), /proc/self/fd back to its state, no file finalised unclosed; plus the real "
+             "server process (threading and forking) with clients that read r bytes of an 8 MiB document and reset the "
+             "connection: every failure logged under its own class with the client address, server still answering",
         assumptions=["responses written by a subprocess straight to the socket (plaintext script/decompressor output) "
                      "have no Python-level writes to fail; they are driven over TLS, where the server relays the output",
                      "descriptors are compared after gc.collect(); ones closed only by the collector are counted"],
